@@ -28,10 +28,10 @@ import (
 	"encoding/binary"
 	"fmt"
 	"io"
+	"os"
 	"sort"
 	"strings"
 	"sync"
-	"sync/atomic"
 	"syscall"
 	"time"
 
@@ -90,14 +90,14 @@ type c13raw struct {
 	pcount  uint32
 	// connections in bad health (round 5)
 	bad    map[int]int    // connection -> kind of RBreak that made every write to it fail (0, 1, 2)
-	once   map[int]*int32 // connection -> Event writes that are still to fail once
+	once   map[int]*c13once // connection -> transient failures to come
 	slow   map[int]bool   // connection -> its Event writes block until the harness lets them go
 	closed map[int]bool   // connection closed by the sequence
 }
 
 func c13rawNew(nconn int) *c13raw {
 	return &c13raw{w: c13new(nconn), readers: map[[2]int]*c13rawReader{}, pcount: 100,
-		bad: map[int]int{}, once: map[int]*int32{}, slow: map[int]bool{}, closed: map[int]bool{}}
+		bad: map[int]int{}, once: map[int]*c13once{}, slow: map[int]bool{}, closed: map[int]bool{}}
 }
 
 // ---- connections in bad health ----
@@ -111,12 +111,42 @@ const (
 	c13brkFail  = 0 // every write fails with an error that is not io.EOF (EPIPE, ECONNRESET)
 	c13brkEOF   = 1 // every write fails with io.EOF: UpdateSignal forgets the registration it was writing to
 	c13brkClose = 2 // the whole connection is closed (by the peer): writes fail, the closers forget the registrations
-	c13brkOnce  = 3 // the next Event write fails (not io.EOF), later ones succeed
+	c13brkOnce  = 3 // the Event writes of the next emission that reaches the connection fail (not io.EOF), later ones succeed
 	c13brkSlow  = 4 // Event writes block for a while
 )
 
+// c13once: transient failures of a connection.  One failure lasts for the Event writes of ONE emission (the
+// first event written to the connection while a failure is pending, and every other frame of that same event):
+// what an emission sends does not depend on the order of the registrations then.
+type c13once struct {
+	mu      sync.Mutex
+	pending int
+	failing bool
+	event   uint32
+}
+
+func (o *c13once) arm() { o.mu.Lock(); o.pending++; o.mu.Unlock() }
+func (o *c13once) armed() bool {
+	o.mu.Lock()
+	defer o.mu.Unlock()
+	return o.pending > 0
+}
+func (o *c13once) write(event uint32) error {
+	o.mu.Lock()
+	defer o.mu.Unlock()
+	if o.failing && o.event == event {
+		return syscall.EPIPE
+	}
+	if o.pending > 0 {
+		o.pending--
+		o.failing, o.event = true, event
+		return syscall.EPIPE
+	}
+	return nil
+}
+
 var c13brkNames = []string{"every write fails (EPIPE / ECONNRESET)", "every write fails with io.EOF", "the connection is closed",
-	"the next Event write fails once (EPIPE)", "Event writes block until the peer takes them (slow)"}
+	"the Event writes of the next emission fail (EPIPE)", "Event writes block until the peer takes them (slow)"}
 
 func (r *c13raw) usable(c int) bool { _, b := r.bad[c]; return !b }
 
@@ -150,20 +180,19 @@ func (r *c13raw) breakConn(c, k int) {
 			text += " (3 ms ago)"
 		}
 	case c13brkOnce:
-		n, ok := r.once[c]
+		o, ok := r.once[c]
 		if !ok {
-			n = new(int32)
-			r.once[c] = n
+			o = &c13once{}
+			r.once[c] = o
 			l.SetFailIf(func(f rig.Frame) error {
-				if f.Head && f.Hdr.Service == sid && f.Hdr.Type == net.Event && atomic.LoadInt32(n) > 0 {
-					atomic.AddInt32(n, -1)
-					return syscall.EPIPE
+				if !f.Head || f.Hdr.Service != sid || f.Hdr.Type != net.Event {
+					return nil
 				}
-				return nil
+				return o.write(c13val(f.Payload))
 			})
 		}
-		atomic.AddInt32(n, 1)
-		text = fmt.Sprintf("the next Event write to connection %d fails with EPIPE, later writes succeed", c)
+		o.arm()
+		text = fmt.Sprintf("the Event writes of the next emission that reaches connection %d fail with EPIPE, later writes succeed", c)
 	case c13brkSlow:
 		r.slow[c] = true
 		l.SetBlockIf(func(f rig.Frame) bool { return f.Head && f.Hdr.Service == sid && f.Hdr.Type == net.Event })
@@ -365,8 +394,8 @@ func (r *c13raw) emit(sig uint32, k int) {
 	for c := range r.bad {
 		st.unreachable[c] = true
 	}
-	for c, n := range r.once {
-		if atomic.LoadInt32(n) > 0 {
+	for c, o := range r.once {
+		if o.armed() {
 			st.unreachable[c] = true
 		}
 	}
@@ -778,9 +807,10 @@ func c13runRaw(res *hx.Result, rng *hx.Rng, tier string, outdir string, cfg stri
 			hung++
 		}
 	}
+	only := strings.TrimPrefix(os.Getenv("QV_C13_HEALTH"), "only:")
 	for i, sc := range c13rawScripts() {
 		for m := 0; m < 4; m++ {
-			if (tier != "thorough" && m != 0 && m != 1+i%3) || hung >= 4 {
+			if (tier != "thorough" && m != 0 && m != 1+i%3) || hung >= 4 || only != "" {
 				continue
 			}
 			c13mode = m
@@ -808,6 +838,9 @@ func c13runRaw(res *hx.Result, rng *hx.Rng, tier string, outdir string, cfg stri
 	if tier == "thorough" {
 		nh = 2000
 	}
+	if only != "" {
+		fmt.Sscanf(only, "%d", &nh)
+	}
 	hrng := hx.NewRng(res.Seed*0x9e3779b97f4a7c15 + 1305)
 	for i := 0; i < nh && hung < 4; i++ {
 		c13mode = i % 4
@@ -820,6 +853,9 @@ func c13runRaw(res *hx.Result, rng *hx.Rng, tier string, outdir string, cfg stri
 	n := 120
 	if tier == "thorough" {
 		n = 3000
+	}
+	if only != "" {
+		n = 0
 	}
 	for i := 0; i < n; i++ {
 		if hung >= 4 {
